@@ -7,6 +7,7 @@ import (
 	"sync"
 
 	ipfslog "berty.tech/go-ipfs-log"
+	"berty.tech/go-ipfs-log/entry"
 	"berty.tech/go-ipfs-log/iface"
 )
 
@@ -30,10 +31,11 @@ func (s Step) String() string {
 	case "joinrejected":
 		return fmt.Sprintf("rejected-join(r%d<-copy-of-r%d+%d valid+1 %s entry)", s.R, s.S, s.PC, s.Payload)
 	case "fork":
-		if s.PC == 1 {
-			return fmt.Sprintf("fork(r%d:=NewLog(entries,heads,CLOCK of r%d))", s.R, s.S)
-		}
-		return fmt.Sprintf("fork(r%d:=NewLog(entries,heads of r%d))", s.R, s.S)
+		return fmt.Sprintf("fork(r%d:=NewLog(entries of r%d, %s))", s.R, s.S, []string{"heads given", "heads + CLOCK object of the source", "heads nil", "heads empty non-nil slice", "heads given, SAME entries map object as the previous fork of this source"}[s.PC%5])
+	case "jointruncated":
+		return fmt.Sprintf("join(r%d<-load of the newest %d entries of r%d)", s.R, s.PC, s.S)
+	case "joinalien":
+		return fmt.Sprintf("cross-key-merges(r%d <-> log written with another link key)", s.R)
 	case "burst":
 		return fmt.Sprintf("concurrent-burst(r%d: %d appends || merges of every other replica || reader)", s.R, s.PC)
 	case "setident":
@@ -45,7 +47,9 @@ func (s Step) String() string {
 }
 
 // ExpectsError: operations that the library must refuse (and that must leave the log as it was).
-func (s Step) ExpectsError() bool { return s.Op == "denyappend" || s.Op == "joinrejected" }
+func (s Step) ExpectsError() bool {
+	return s.Op == "denyappend" || s.Op == "joinrejected" || s.Op == "joinalien"
+}
 
 type History struct {
 	Seed          int64  `json:"seed"`
@@ -56,7 +60,9 @@ type History struct {
 	Order         string `json:"order"`
 	Codec         string `json:"codec"`
 	Shape         string `json:"shape"`
-	Failures      bool   `json:"failures,omitempty"` // replicas carry a payload-prefix deny policy; history has refused operations
+	Failures      bool   `json:"failures,omitempty"`      // replicas carry a payload-prefix deny policy; history has refused operations
+	HugeClocks    bool   `json:"huge_clocks,omitempty"`   // replicas start with a clock time of 2^60 (LogOptions.Clock)
+	ReuseOptions  bool   `json:"reuse_options,omitempty"` // loaders are called with one reused LogOptions / FetchOptions value
 	Steps         []Step `json:"steps"`
 }
 
@@ -65,6 +71,7 @@ var Shapes = []string{"mixed", "widefork", "diamond", "lopsided", "ring", "repea
 var pcs = []int{1, 1, 1, 2, 4, 8, 16, 32, 64}
 
 type GenOpts struct {
+	Truncated   bool // also merge from length-limited loads of other replicas (C05 only: monotonicity oracles)
 	Bursts      bool // also generate concurrent bursts on one replica (appends || merges || reads)
 	Failures    bool // also generate refused operations (denied appends, rejected merges) and forks
 	Extra       bool // also generate setident / reload steps (C04)
@@ -96,6 +103,8 @@ func Gen(seed int64, idx int, o GenOpts) *History {
 	h := &History{Seed: seed, Idx: idx}
 	h.Replicas = 2 + rng.Intn(o.MaxReplicas-1)
 	h.Failures = o.Failures
+	h.HugeClocks = o.Failures && idx%8 == 5
+	h.ReuseOptions = idx%2 == 0
 	h.Order = o.Orders[rng.Intn(len(o.Orders))]
 	h.Codec = o.Codecs[rng.Intn(len(o.Codecs))]
 	h.Shape = o.Shapes[idx%len(o.Shapes)]
@@ -136,6 +145,15 @@ func Gen(seed int64, idx int, o GenOpts) *History {
 		if o.Bursts && len(h.Steps) < n && s.Op == "append" && rng.Intn(6) == 0 {
 			h.Steps = append(h.Steps, Step{Op: "burst", R: s.R, PC: 2 + rng.Intn(4), Payload: pay()})
 		}
+		if o.Truncated && len(h.Steps) < n && s.Op == "append" && rng.Intn(6) == 0 && h.Codec != "pb" {
+			src := rng.Intn(h.Replicas)
+			if src != s.R {
+				h.Steps = append(h.Steps, Step{Op: "jointruncated", R: s.R, S: src, PC: 1 + rng.Intn(3)})
+			}
+		}
+		if o.Failures && (h.Codec == "link" || h.Codec == "link2") && len(h.Steps) < n && rng.Intn(9) == 0 {
+			h.Steps = append(h.Steps, Step{Op: "joinalien", R: s.R})
+		}
 		if o.Failures && len(h.Steps) < n && rng.Intn(7) == 0 {
 			// a refused operation or a fork, followed by ordinary traffic
 			switch rng.Intn(5) {
@@ -149,7 +167,17 @@ func Gen(seed int64, idx int, o GenOpts) *History {
 				h.Steps = append(h.Steps, Step{Op: "joinrejected", R: s.R, S: src, PC: rng.Intn(3), Payload: []string{"denied", "mis-signed"}[rng.Intn(2)]})
 			case 3:
 				if h.Replicas > 2 {
-					h.Steps = append(h.Steps, Step{Op: "fork", R: (s.R + 1 + rng.Intn(h.Replicas-1)) % h.Replicas, S: s.R, PC: rng.Intn(2)})
+					tgt := (s.R + 1 + rng.Intn(h.Replicas-1)) % h.Replicas
+					v := rng.Intn(4)
+					h.Steps = append(h.Steps, Step{Op: "fork", R: tgt, S: s.R, PC: v})
+					if h.Replicas > 3 && rng.Intn(2) == 0 {
+						// a second replica opened from the very same entries map object
+						t2 := (tgt + 1) % h.Replicas
+						if t2 == s.R {
+							t2 = (t2 + 1) % h.Replicas
+						}
+						h.Steps = append(h.Steps, Step{Op: "fork", R: t2, S: s.R, PC: 4})
+					}
 				}
 			case 4:
 				h.Steps = append(h.Steps, Step{Op: "joinempty", R: s.R})
@@ -161,6 +189,9 @@ func Gen(seed int64, idx int, o GenOpts) *History {
 				h.Steps = append(h.Steps, Step{Op: "setident", R: s.R, S: rng.Intn(h.Writers)})
 			} else {
 				h.Steps = append(h.Steps, Step{Op: "reload", R: s.R, Payload: []string{"manifest", "json", "entries", "hash"}[rng.Intn(4)]})
+				if rng.Intn(2) == 0 { // a reopened log whose writer is changed before it is appended to
+					h.Steps = append(h.Steps, Step{Op: "setident", R: s.R, S: rng.Intn(h.Writers)})
+				}
 			}
 			if len(h.Steps) < n {
 				h.Steps = append(h.Steps, Step{Op: "append", R: s.R, PC: pcs[rng.Intn(len(pcs))], Payload: pay()})
@@ -355,19 +386,38 @@ func minI(a, b int) int {
 
 // Exec executes a history on fresh replicas.
 type Exec struct {
-	W       *World
-	H       *History
-	Writer  []int // current writer of each replica
-	Logs    []*ipfslog.IPFSLog
-	Empty   *ipfslog.IPFSLog
-	Foreign *ipfslog.IPFSLog
+	W        *World
+	H        *History
+	Writer   []int // current writer of each replica
+	Logs     []*ipfslog.IPFSLog
+	Empty    *ipfslog.IPFSLog
+	Foreign  *ipfslog.IPFSLog
+	alien    *ipfslog.IPFSLog // same id, written with the OTHER link key
+	forkMaps map[int]forkMap
+}
+
+type forkMap struct {
+	m   iface.IPFSLogOrderedEntries
+	len int
 }
 
 func NewExec(h *History) *Exec {
 	w := NewWorld(h.Seed, h.Writers, fmt.Sprintf("log-%d-%d", h.Seed, h.Idx), h.Order, h.Codec)
 	w.DenyPrefix = h.Failures
-	x := &Exec{W: w, H: h}
+	w.ReuseOptions = h.ReuseOptions
+	x := &Exec{W: w, H: h, forkMaps: map[int]forkMap{}}
 	for r := 0; r < h.Replicas; r++ {
+		if h.HugeClocks {
+			lo := w.LogOpts(w.LogID)
+			lo.Clock = entry.NewLamportClock(w.Idents[h.ReplicaWriter[r]].PublicKey, 1<<60)
+			l, err := ipfslog.NewLog(w.Store.API(), w.Idents[h.ReplicaWriter[r]], lo)
+			if err != nil {
+				panic(err)
+			}
+			x.Logs = append(x.Logs, l)
+			x.Writer = append(x.Writer, h.ReplicaWriter[r])
+			continue
+		}
 		x.Logs = append(x.Logs, w.NewLog(h.ReplicaWriter[r]))
 		x.Writer = append(x.Writer, h.ReplicaWriter[r])
 	}
@@ -517,14 +567,63 @@ func (x *Exec) Do(i int) StepResult {
 		return StepResult{Err: jerr}
 	case "burst":
 		return x.burst(s)
+	case "jointruncated":
+		src := x.Logs[s.S]
+		heads := src.Heads().Slice()
+		if len(heads) == 0 {
+			return StepResult{}
+		}
+		n := s.PC
+		part, err := x.W.LoadHash(heads[0].GetHash(), x.Writer[s.R], &LoadOpts{Length: &n})
+		if err != nil {
+			return StepResult{Err: err}
+		}
+		_, jerr := l.Join(part, -1)
+		return StepResult{Err: jerr}
+	case "joinalien":
+		// a log with the same id written under the other link key: merging either way must be refused
+		if x.alien == nil {
+			other := "link2"
+			if x.H.Codec == "link2" {
+				other = "link"
+			}
+			lo := x.W.LogOpts(x.W.LogID)
+			lo.IO = IO(other)
+			a, err := ipfslog.NewLog(x.W.Store.API(), x.W.Idents[0], lo)
+			if err != nil {
+				panic(err)
+			}
+			for k := 0; k < 3; k++ {
+				if _, err := a.Append(x.W.Ctx, []byte(fmt.Sprintf("%d.%d/alien%d", x.H.Seed, x.H.Idx, k)), nil); err != nil {
+					return StepResult{Err: err}
+				}
+			}
+			x.alien = a
+		}
+		_, e1 := x.alien.Join(l, -1) // the alien log verifies l's entries with ITS key
+		_, e2 := l.Join(x.alien, -1)
+		if e2 == nil && e1 != nil {
+			e2 = e1
+		}
+		return StepResult{Err: e2}
 	case "fork":
 		src := x.Logs[s.S]
 		lo := x.W.LogOpts(x.W.LogID)
 		lo.Entries = src.GetEntries()
 		lo.Heads = src.Heads().Slice()
-		if s.PC == 1 {
+		switch s.PC % 5 {
+		case 1:
 			lo.Clock = src.Clock // continue with the source's clock object (minted by the source's writer)
+		case 2:
+			lo.Heads = nil // heads are found from the entries
+		case 3:
+			lo.Heads = []iface.IPFSLogEntry{} // e.g. a filter that matched nothing: still "no heads given"
+		case 4:
+			if fm, ok := x.forkMaps[s.S]; ok && fm.len == src.Len() {
+				lo.Entries = fm.m // the same map object another replica was opened from
+			}
 		}
+		x.forkMaps[s.S] = forkMap{lo.Entries, src.Len()}
 		nl, err := ipfslog.NewLog(x.W.Store.API(), x.W.Idents[x.Writer[s.R]], lo)
 		if err != nil {
 			return StepResult{Err: err}
